@@ -103,7 +103,9 @@ def body(env, cfg):
         mid = [(a + b) / 2 for a, b in zip(vals[:-1], vals[1:])]
         for k, op in enumerate(cfg["hist"]):
             if op == "ins_new":
-                c.knot_insert([mid[k % len(mid)]])
+                z = mid[k % len(mid)]
+                if list(c.knotvector).count(z) < c.degree:
+                    c.knot_insert([z])
             elif op == "ins_new2":
                 z = (2 * vals[0] + vals[-1]) / 3
                 z = z if z not in vals else (3 * vals[0] + vals[-1]) / 4
